@@ -17,7 +17,7 @@ CONSTANTS
   DeliveryMenu <- MC_DeliveryMenu
   ExportMenu <- MC_ExportMenu
   ShotSMenu <- NoSetups
-  ShotRMenu <- NoSetups
+  ShotRMenu <- NoSetups2
   MaxSeals = 3
   MaxOpens = 3
   MaxExports = 1
